@@ -309,7 +309,7 @@ def _operator_object(e: ast.AST) -> Optional[ast.Lambda]:
         body = item(e.args[0]) if len(e.args) == 1 else ast.Tuple(elts=[item(a) for a in e.args], ctx=ast.Load())
         return ast.Lambda(args=largs, body=body)
     if nm == "methodcaller" and e.args and isinstance(e.args[0], ast.Constant) and isinstance(e.args[0].value, str) \
-            and all(isinstance(a, (ast.Constant, ast.Name)) for a in e.args[1:]) and all(k.arg and isinstance(k.value, (ast.Constant, ast.Name)) for k in e.keywords):
+            and all(isinstance(a, (ast.Constant, ast.Name)) for a in e.args[1:]) and all(isinstance(k.value, (ast.Constant, ast.Name)) for k in e.keywords):
         body = ast.Call(func=ast.Attribute(value=copy.deepcopy(v), attr=e.args[0].value, ctx=ast.Load()), args=[copy.deepcopy(a) for a in e.args[1:]],
                         keywords=[copy.deepcopy(k) for k in e.keywords])
         return ast.Lambda(args=largs, body=body)
@@ -2149,3 +2149,46 @@ def renamed_private_anchors(trees: Dict[str, ast.Module]) -> None:
                         n.attr = name
                     elif isinstance(n, ast.alias) and n.name == old and h["class"] is None:
                         n.name = name
+
+
+def inline_new_properties(trees: Dict[str, ast.Module]) -> None:
+    """A read-only property that is not part of the confirmed public surface (sfa/baseline.json), whose body is a single `return E` over self:
+    reads of `self.<name>` inside the methods of the same class are E.  (A refactoring gave a repeated expression a name.)"""
+    from .normalize import _baseline_functions, anchors
+    base = _baseline_functions()
+    if "*" in base:
+        return
+    anch = anchors()
+    for m, t in trees.items():
+        if ".tests" in m or m.endswith("tests"):
+            continue
+        for cd in [n for n in t.body if isinstance(n, ast.ClassDef)]:
+            props: Dict[str, Tuple[str, ast.expr]] = {}
+            for fn in [x for x in cd.body if isinstance(x, ast.FunctionDef)]:
+                if len(fn.decorator_list) == 1 and isinstance(fn.decorator_list[0], ast.Name) and fn.decorator_list[0].id == "property" and f"{m}:{cd.name}.{fn.name}" not in base \
+                        and fn.name not in anch and len(fn.args.args) == 1:
+                    body = [x for x in fn.body if not (isinstance(x, ast.Expr) and isinstance(x.value, ast.Constant))]
+                    if len(body) == 1 and isinstance(body[0], ast.Return) and body[0].value is not None and _read_only(body[0].value):
+                        props[fn.name] = (fn.args.args[0].arg, body[0].value)
+            # no setter / deleter for it, no assignment to self.<name>
+            for nm in list(props):
+                if any(isinstance(n, ast.Attribute) and n.attr == nm and isinstance(n.ctx, (ast.Store, ast.Del)) for n in ast.walk(t)):
+                    del props[nm]
+            if not props:
+                continue
+            for fn in [x for x in cd.body if isinstance(x, ast.FunctionDef) and x.args.args]:
+                sn = fn.args.args[0].arg
+
+                class T(ast.NodeTransformer):
+                    def visit_Attribute(self, n: ast.Attribute):
+                        self.generic_visit(n)
+                        if isinstance(n.ctx, ast.Load) and isinstance(n.value, ast.Name) and n.value.id == sn and n.attr in props and fn.name != n.attr:
+                            psn, e = props[n.attr]
+                            e2 = copy.deepcopy(e)
+                            for x in ast.walk(e2):
+                                if isinstance(x, ast.Name) and x.id == psn:
+                                    x.id = sn
+                            return ast.copy_location(e2, n)
+                        return n
+                T().visit(fn)
+        ast.fix_missing_locations(t)
